@@ -1201,6 +1201,14 @@ impl<'a> FnCompiler<'a> {
                     }
                 };
 
+                // The tx field ID becomes a 12-bit immediate of the `gtf` instruction.
+                if tx_field_id > crate::asm_generation::fuel::compiler_constants::TWELVE_BITS {
+                    return Err(CompileError::Immediate12TooLarge {
+                        val: tx_field_id,
+                        span: arguments[1].span.clone(),
+                    });
+                }
+
                 // Get the target type from the type argument provided
                 let target_type = &type_arguments[0];
                 let target_ir_type = convert_resolved_type_id(
